@@ -4,6 +4,7 @@ CONSTANTS NObjMax = 3
  NGnd = 2
  HasGround = TRUE
  MaxTag = 4
+ MaxCurves = 0
 INIT Init
 NEXT Next
 INVARIANT CountFormula
